@@ -1396,7 +1396,7 @@ func init() {
 		},
 		Run: vRunControl,
 		Meta: vMeta{Level: "exploration",
-			Rule: "case = one client session against an in-package SourceControl: 1-3 requests with no source, Start of Triangle / scripted Lancero card / ErroringSource / a self-ending source (error block or closed channel at a scripted request index, requests continuing at once or after it settled), then 12-30 requests drawn from every queued request type with valid and invalid arguments (negative, too large, empty, nil and 2^40 channel indices, invalid pulse lengths, malformed/truncated/empty/wrong-shape matrices, every write-control string with all file-type subsets, empty/huge labels and comments, coupling on sources without it, mix lists of unequal length, raw-block sizes 0/negative/2^50, pixel maps that do not cover the channel numbers) and single I/O faults (output base path is a file, comment.txt uncreatable, experiment-state file uncreatable or on a full disk, external-trigger file uncreatable); 15 % of the requests are issued while the hook holds a block inside ProcessSegments. Monitors: reply class vs. model, effect/ProcessSegments span overlap, >=2 further blocks processed after each reply, every call returns (wait-state analysis), process crash = violation of the journaled case; non-trivial = session completed",
+			Rule: "case = one client session against an in-package SourceControl: 1-3 requests with no source, Start of Triangle / scripted Lancero card / ErroringSource / a self-ending source (error block or closed channel at a scripted request index, requests continuing at once or after it settled), then 12-30 requests drawn from every queued request type with valid and invalid arguments (negative, too large, empty, nil and 2^40 channel indices, invalid pulse lengths, malformed/truncated/empty/wrong-shape matrices, every write-control string with all file-type subsets, empty/huge labels and comments, coupling on sources without it, mix lists of unequal length, raw-block sizes 0/negative/2^50, pixel maps that do not cover the channel numbers) and single I/O faults (output base path is a file, comment.txt uncreatable, experiment-state file uncreatable or on a full disk, external-trigger file uncreatable); 15 % of the requests are issued while the hook holds a block inside ProcessSegments. Monitors: reply class vs. model, effect/ProcessSegments span overlap, >=2 further blocks processed after each reply, every call returns (wait-state analysis), process crash = violation of the journaled case; non-trivial = session completed; additions: partly valid group-trigger requests with a monitor of the GROUPTRIGGER update sent to clients, raw-block sizes up to MaxInt64, Stop-then-Start straight after a self-termination, and backlog sessions (a block on offer at every block boundary, enforced at the core.idle hook) with a starvation monitor counting blocks processed while a request waits",
 			Assumptions: []string{"single client (one goroutine issuing requests)", "the fire-and-forget mode of SetExperimentStateLabel is excluded as the property says", "where the statement does not fix the reply (raw-block size 0, deleting a connection that cannot exist, reading a comment after self-termination) either reply is accepted",
 				"hangs are decided by wait-state analysis of two goroutine dumps 2 s apart after a 15 s watchdog, never by the clock alone"},
 			Guards: map[string]map[string]int{
